@@ -589,7 +589,11 @@ func (fd *Client) BatchWriteItemWithContext(ctx aws.Context, input *dynamodb.Bat
 
 // BatchWriteItem mock response for dynamodb
 func (fd *Client) BatchWriteItem(input *dynamodb.BatchWriteItemInput) (*dynamodb.BatchWriteItemOutput, error) {
-	if ferr := fd.failureErr(); ferr != nil {
+	// the whole batch is one atomic step: the lock is held from the failure check to the last write
+	fd.mu.Lock()
+	defer fd.mu.Unlock()
+
+	if ferr := fd.forceFailureErr; ferr != nil {
 		// nothing is applied while a failure is emulated: every request is unprocessed, or the call fails
 		unprocessed := map[string][]*dynamodb.WriteRequest{}
 
@@ -603,17 +607,13 @@ func (fd *Client) BatchWriteItem(input *dynamodb.BatchWriteItemInput) (*dynamodb
 
 		return &dynamodb.BatchWriteItemOutput{
 			UnprocessedItems:      unprocessed,
-			ItemCollectionMetrics: fd.getItemCollectionMetrics(),
+			ItemCollectionMetrics: fd.itemCollectionMetrics,
 		}, nil
 	}
 
 	if err := validateBatchWriteItemInput(input); err != nil {
 		return &dynamodb.BatchWriteItemOutput{}, err
 	}
-
-	// the whole batch is one atomic step: the lock is held from the validation to the last write
-	fd.mu.Lock()
-	defer fd.mu.Unlock()
 
 	if err := fd.validateBatchWriteRequests(input); err != nil {
 		return &dynamodb.BatchWriteItemOutput{}, err
